@@ -95,6 +95,9 @@ fn pdfdoc_password(r: &mut Rng) -> String {
         .map(|_| {
             if latin && r.bool() {
                 char::from_u32(0xC0 + r.below(0x3F) as u32).unwrap()
+            } else if latin && r.chance(1, 3) {
+                // characters PDFDocEncoding places elsewhere than Windows-1252 or Unicode do
+                *r.pick(&['\u{20AC}', '\u{2022}', '\u{2020}', '\u{2026}', '\u{2014}', '\u{201C}', '\u{2122}', '\u{FB01}', '\u{0141}', '\u{0152}', '\u{0161}', '\u{017E}', '\u{0131}'])
             } else {
                 (0x21 + r.below(0x5e) as u8) as char
             }
@@ -102,9 +105,25 @@ fn pdfdoc_password(r: &mut Rng) -> String {
         .collect()
 }
 
+/// PDFDocEncoding, codes 0x80..=0xA0 (ISO 32000-1 Annex D.2): the cells that differ from Latin-1 and Windows-1252
+const PDFDOC_HIGH: [u32; 33] = [
+    0x2022, 0x2020, 0x2021, 0x2026, 0x2014, 0x2013, 0x0192, 0x2044, 0x2039, 0x203A, 0x2212, 0x2030, 0x201E, 0x201C, 0x201D, 0x2018, 0x2019,
+    0x201A, 0x2122, 0xFB01, 0xFB02, 0x0141, 0x0152, 0x0160, 0x0178, 0x017D, 0x0131, 0x0142, 0x0153, 0x0161, 0x017E, 0, 0x20AC,
+];
+
 fn prepare_r4(s: &str) -> Vec<u8> {
-    // PDFDocEncoding image of ASCII / Latin-1 letters is the code point itself
-    s.chars().map(|c| c as u32 as u8).collect()
+    // PDFDocEncoding image of a character: ASCII and the Latin-1 letters 0xA1..0xFF sit at their own code points,
+    // the punctuation, ligatures and the euro sign of 0x80..0xA0 do not; characters without a cell are dropped
+    s.chars()
+        .filter_map(|c| {
+            let u = c as u32;
+            if (0x20..0x7F).contains(&u) || (0xA1..=0xFF).contains(&u) && u != 0xAD {
+                Some(u as u8)
+            } else {
+                PDFDOC_HIGH.iter().position(|x| *x == u && u != 0).map(|i| 0x80 + i as u8)
+            }
+        })
+        .collect()
 }
 
 /// the P word of ISO 32000-1 Table 22 for a set of granted permissions, computed without lopdf: the permission
@@ -547,6 +566,29 @@ fn strings_in_stream_dict_differ(a: &RDoc, b: &RDoc) -> bool {
         }
     }
     false
+}
+
+/// `model` encrypted by the reference handler under `conf` and written by the reference writer (classic table, the
+/// model's stream objects as they are - object streams among them stay ordinary, encrypted, stream objects)
+pub fn reference_encrypted_file(conf: &Conf, model: &RDoc, r: &mut Rng) -> Vec<u8> {
+    let cfg = conf.enc_cfg();
+    let id0 = match RObj::dict_get(&model.trailer, b"ID") {
+        Some(RObj::Array(a)) => match a.first() {
+            Some(RObj::Str(s, _)) => s.clone(),
+            _ => vec![],
+        },
+        _ => vec![],
+    };
+    let (d, key) = make_encdict(&cfg, &id0, r);
+    let enc_id = (model.max_num() + 1, 0u16);
+    let mut enc = encrypt_doc(model, &cfg, &key, r, None);
+    enc.objects.insert(enc_id, encdict_obj(&cfg, &d));
+    enc.trailer.push((k("Encrypt"), RObj::Ref(enc_id.0, 0)));
+    let mut dis = BTreeSet::new();
+    for f in ["str-raw-cr-eol", "str-raw-crlf-eol"] {
+        dis.insert(f.to_string());
+    }
+    crate::props::c02::write_history(r.next_u64(), &dis, &History::from_doc(&enc), XrefStyle::Table, false).0.bytes
 }
 
 /// C06 direction reference -> lopdf
